@@ -451,9 +451,9 @@ func c17Stream(o *out, r *rng, thorough bool) {
 		}
 	}
 	imgs = append(imgs, mkImg("nosig.bin", 0x300000, 2336, 0))
-	imgs = append(imgs, mkImg("small.bin", 0x200000-1, 2336, 1))     // below the window: 2352 assumed
-	imgs = append(imgs, mkImg("edge_lo.bin", 0x200000, 2340, 2))     // exactly at the window's lower edge
-	imgs = append(imgs, mkImg("edge_hi.bin", 0x35000000, 2448, 1))   // exactly at the upper edge
+	imgs = append(imgs, mkImg("small.bin", 0x200000-1, 2336, 1))    // below the window: 2352 assumed
+	imgs = append(imgs, mkImg("edge_lo.bin", 0x200000, 2340, 2))    // exactly at the window's lower edge
+	imgs = append(imgs, mkImg("edge_hi.bin", 0x35000000, 2448, 1))  // exactly at the upper edge
 	imgs = append(imgs, mkImg("toobig.bin", 0x35000000+1, 2448, 1)) // above: 2352 assumed
 	reps := 16
 	if thorough {
